@@ -98,6 +98,19 @@ pub fn configs_c12(tier: Tier) -> Vec<Box<dyn Config>> {
     let q = tier == Tier::Quick;
     let p = vec![Probe::TryReserve];
     let mut v: Vec<Box<dyn Config>> = Vec::new();
+    // scripted full / tombstone-saturated tables (growth_left == 0, in-place rehash possible)
+    {
+        let mut c = MapCfg::new(Plan::Zero, if sse2 { 30 } else { 16 });
+        c.max_buckets = if sse2 { 64 } else { 32 };
+        c.alphabet = Alphabet::core();
+        c.probes = p.clone();
+        let label = format!("{}-tracked-try_reserve-seeded", c.label());
+        let mut l = lim(tier);
+        l.max_depth = Some(if q { 0 } else { 1 });
+        let mut b = BfsConfig::new(label, MapHarness::<TKey, TVal>::new(c), l);
+        b.seeds = super::c01::seeds_for(super::width()).into_iter().step_by(if q { 3 } else { 1 }).collect();
+        v.push(Box::new(b));
+    }
     if sse2 {
         v.push(probe_cfg::<TKey, TVal>(Plan::Zero, if q { 11 } else { 15 }, p.clone(), tier, "try_reserve"));
         v.push(probe_cfg::<PKey, PVal>(Plan::Seq, if q { 4 } else { 6 }, p.clone(), tier, "try_reserve"));
